@@ -1545,6 +1545,10 @@ class TransactionBuilder:
         Args:
             collateral_return_address (Address): Address to which the collateral change will be returned.
         """
+        # What an earlier build() computed belongs to the collaterals it saw.
+        self._collateral_return = None
+        self._total_collateral = None
+
         witnesses = self._build_fake_witness_set()
 
         # Make sure there is at least one script input
